@@ -170,6 +170,16 @@ func linOfX(v ssa.Value, sym symNamer, phiRes func(*ssa.Phi) ssa.Value, ov func(
 		if o := origin(v); o != v {
 			return rec(o, d+1)
 		}
+		if cl, ok := v.(*ssa.Call); ok {
+			// len(unsafe.Slice(p, n)) is n
+			if b, ok := cl.Call.Value.(*ssa.Builtin); ok && (b.Name() == "len" || b.Name() == "cap") && len(cl.Call.Args) == 1 {
+				if sc, ok := origin(cl.Call.Args[0]).(*ssa.Call); ok {
+					if sb, ok := sc.Call.Value.(*ssa.Builtin); ok && sb.Name() == "Slice" && len(sc.Call.Args) == 2 {
+						return rec(sc.Call.Args[1], d+1)
+					}
+				}
+			}
+		}
 		if s, ok := sym(v); ok {
 			return linSym(s)
 		}
